@@ -402,6 +402,33 @@ class LibMap:
             return "(*%sback(%s))" % (f, p)
         if name in ("at",):
             return "(*%sat(%s, %s))" % (f, p, em.E(args[0]))
+        if name == "capacity" and not args:
+            return "%s->cap" % em.paren(p)  # the model never reallocates: capacity() is the fixed model capacity
+        if name == "emplace_back" and len(args) != 1:
+            # emplace_back(a0, .., ak) on a sequence of class objects: the constructor of the element class runs on the
+            # new last slot (T__ctor is a unit or a callee); forwarded scalars / pointers are passed by value, class-type
+            # arguments by address
+            ect = em.tm.seq_insts.get(tag, "")
+            if not ect.startswith("struct ") or ect.startswith("struct vf_") or ect.endswith("*"):
+                return None
+            etag = ect[len("struct "):]
+            pcs, avs = [], []
+            for a in args:
+                act = em.try_ctype(a)
+                if act is None:
+                    return None
+                if is_scalar(act) or act.endswith("*"):
+                    pcs.append(act)
+                    avs.append(em.E(a))
+                else:
+                    pcs.append(act + "*")
+                    avs.append(em.addr_of(a))
+            cn = em.fn_cname(etag, "ctor", None)
+            em.structs.setdefault(etag, {})
+            em.note_proto(cn, "void", ["struct %s*" % etag] + pcs, "ctor %s (emplace_back)" % etag)
+            em.callees.setdefault(cn, "%s::%s (emplace_back)" % (etag, etag))
+            em.callflag = True
+            return "%s(%s)" % (cn, ", ".join(["%semplace_slot(%s)" % (f, p)] + avs))
         if name in ("push_back", "emplace_back", "push_front", "emplace_front"):
             if len(args) == 2 and name.startswith("emplace") and tag.startswith("vf_pair_") and \
                     tag[len("vf_pair_"):] in em.tm.pair_insts:
@@ -826,6 +853,10 @@ class LibMap:
                     skip(args[0])["referencedDecl"].get("name") == "nullopt":
                 return "((%s){0})" % ct
             return "((%s){1, %s})" % (ct, em.E(args[0]))
+        if ct == "struct vf_ihook":
+            if not args:
+                return "((struct vf_ihook){0})"  # a default-constructed (safe-link) member hook is not linked
+            return None
         if ct == "struct vf_lock":
             if len(args) == 1 and self.mapped(em, args[0]) == ct:
                 return em.E(args[0])
